@@ -427,6 +427,8 @@ func suiteTtml(R *runner, r *rng) {
 	for k, v := range ttFreedoms {
 		R.countN("ttml.freedom."+k, v)
 	}
+	R.countN("ttml.read.start_tags_with_a_line_break_inside", xmlLineBreakInTag)
+	xmlLineBreakInTag = 0
 	ttFreedoms = map[string]int{}
 	// crafted documents (regressions of what the checks found, one concern each)
 	for _, cd := range ttCorpus {
@@ -613,7 +615,7 @@ func suiteTtml(R *runner, r *rng) {
 		addT(expr+u, 0, 0, "ttml.time.random")
 	}
 	// malformed and unusual strings: model comparison only
-	bad := []string{"9007199254.740993s", "", " ", "1", "1.5", "1s ", " 1s", "1.s", ".5s", "1:2", "01:02", "1:2:3:4:5", "00:00:01.1234", "1e3s", "-1s", "+1s", "１s", "00:00:61", "1,5s", "00:00:01:", ":00:00:01", "00::01", "00:00:01:1:", "00:00:01:xx", "5 f", "5F", "5S", "5ms ", "5mss", "5hs", "00:00:01.5s", "1.2.3s", "99999999999999999999s", "0.99999999999999999999s", "00:00:01:99999999999999999999", "123456789012345f", "1234567890123456f", "9223372036854775807t", "00:00:01;05", "00:00:01.000:05", "00:00:01:05.5", "10f\n", "\n10f", "00:00:01\n", "0x10s", "1_0s", "1h30m", "12:34:56.789", "12:34:56:2", "123.4h", "6t", "00:01", "1:02", "a:b:c", "00:00:-1", "00:00:+1", "00: 00 : 01", "00:00:01 .5", "00:00:01. 5", "4294967296f", "18446744073709551616t"}
+	bad := []string{"2562047:47:16:24", "9007199254.740993s", "", " ", "1", "1.5", "1s ", " 1s", "1.s", ".5s", "1:2", "01:02", "1:2:3:4:5", "00:00:01.1234", "1e3s", "-1s", "+1s", "１s", "00:00:61", "1,5s", "00:00:01:", ":00:00:01", "00::01", "00:00:01:1:", "00:00:01:xx", "5 f", "5F", "5S", "5ms ", "5mss", "5hs", "00:00:01.5s", "1.2.3s", "99999999999999999999s", "0.99999999999999999999s", "00:00:01:99999999999999999999", "123456789012345f", "1234567890123456f", "9223372036854775807t", "00:00:01;05", "00:00:01.000:05", "00:00:01:05.5", "10f\n", "\n10f", "00:00:01\n", "0x10s", "1_0s", "1h30m", "12:34:56.789", "12:34:56:2", "123.4h", "6t", "00:01", "1:02", "a:b:c", "00:00:-1", "00:00:+1", "00: 00 : 01", "00:00:01 .5", "00:00:01. 5", "4294967296f", "18446744073709551616t"}
 	for _, s := range bad {
 		for _, rt := range [][2]int{{25, 4}, {0, 0}, {30, 10000000}, {-5, -5}} {
 			R.add(ttTimeObs(s, rt[0], rt[1], nil, "ttml.time.malformed"))
@@ -739,6 +741,12 @@ func suiteTtml(R *runner, r *rng) {
 			if len(it.Lines) > 1 {
 				o.NT = true
 			}
+		}
+		if r.chance(1, 8) {
+			// Items is a []*Item: WriteToTTML drops nil elements first (nonNilItems, write_ttml_items_c); the model input
+			// above is the list without them
+			s.Items = withNilItems(s.Items, r.intn(8))
+			R.count("ttml.write.nil_item")
 		}
 		var buf bytes.Buffer
 		var err error
@@ -909,6 +917,13 @@ var ttCorpus = []ttCorpusDoc{
 		return ""
 	}},
 	{"closed_references_needed: p naming an undefined style", `<tt><body><div><p begin="1s" end="2s" style="z">x</p></div></body></tt>`, nil},
+	{"a start tag inside a paragraph written over several lines", ttWrap("", "<p begin=\"1s\" end=\"2s\"><span\n tts:color=\"red\"\n\ttts:fontStyle='italic'\n>Hi</span\n><br\n/>x</p>"), func(v tvDoc) string {
+		l := v.Items[0].Lines
+		if len(l) != 2 || len(l[0]) != 1 || l[0][0].Text != "Hi" || l[0][0].A.S[1] == nil || *l[0][0].A.S[1] != "red" || l[1][0].Text != "x" {
+			return "lines " + showLines(l)
+		}
+		return ""
+	}},
 	{"p without begin", ttWrap("", `<p end="2s">x</p>`), nil},
 	{"unknown style", ttWrap("", `<p begin="1s" end="2s" style="nope">x</p>`), nil},
 	{"unknown parent", ttWrap(`<head><styling><style xml:id="a" style="nope"/></styling></head>`, `<p begin="1s" end="2s">x</p>`), nil},
